@@ -24,7 +24,7 @@ use sqlgrep::parsing::CommonParserError;
 use sqlgrep::Statement;
 
 use crate::c04::gen_input;
-use crate::engine_run::exec_err_kind;
+use crate::engine_run::{exec_err_kind, prepare};
 use crate::exprs::oracles_sexp;
 use crate::extract::{gen_def, json_line, parse_def, regex_line, TEMPLATES};
 use crate::lexcases::{class_table, number_table};
@@ -503,6 +503,191 @@ pub fn stream(run: &mut Run, rng: &mut Rng, n: usize, focus: &str) {
     run.notes.push(format!("e2e stream ({}): {} cases from raw texts and raw file bytes through parsing::parse + Tables + FileExecutor (capturing printer) vs Pipeline.runText; {} generated definitions were rejected by the real parser and replaced", focus, n, skew));
 }
 
+// ---------------------------------------------------------------------------------------------
+// relations between two runs of the whole program (Props/PipelineLines.lean), checked on the IMPLEMENTATION:
+// raw texts, raw bytes, every output format, real files through `parsing::parse` + `FileExecutor`; both runs of every
+// pair also go to the model as `e2e` cases
+// ---------------------------------------------------------------------------------------------
+
+impl Case {
+    fn with_input(&self, files: Vec<Vec<u8>>, joined: Option<(String, Option<Vec<u8>>)>, family: &'static str) -> Case {
+        Case { defs: self.defs.clone(), query: self.query.clone(), format: self.format.clone(), single: self.single, files, joined, family }
+    }
+}
+
+/// the answer without the statistics counter (`Answer.output` of the model)
+fn without_total(answer: &str) -> String {
+    answer.split(' ').filter(|t| !t.starts_with("total=")).collect::<Vec<_>>().join(" ")
+}
+
+fn show_case(c: &Case) -> String {
+    format!("e2e defs={:?} query={:?} format={:?} single={} files={:?} joined={:?}", c.defs, c.query, c.format, c.single,
+        c.files.iter().map(|f| String::from_utf8_lossy(f).to_string()).collect::<Vec<_>>(),
+        c.joined.as_ref().map(|(p, b)| (p.clone(), b.as_ref().map(|b| String::from_utf8_lossy(b).to_string()))))
+}
+
+/// one run of the real program on the case (the joined file put in place first); the case also goes to the model
+fn observe(run: &mut Run, c: &Case, jpath: &std::path::Path, rel: &str, variant: &str) -> String {
+    let _ = std::fs::remove_file(jpath);
+    if let Some((p, Some(b))) = &c.joined { std::fs::write(p, b).unwrap(); }
+    let answer = run_real(c);
+    let tag = format!("e2e:{}:{}:{}:{}:{}", rel, variant, format_tag(&c.format), shape(&c.query), result_kind(&answer));
+    run.count(&format!("e2e:{}", rel));
+    run.case_with_desc(case_line(c), answer.clone(), tag, show_case(c));
+    answer
+}
+
+/// whole lines inserted at line boundaries of a byte content: at the start or just after a `\n` — never after an
+/// unterminated last line (that is not a line boundary: the bytes would continue that line); `\n` or `\r\n` ends
+pub fn insert_at_line_boundaries(rng: &mut Rng, bytes: &[u8], lines: &[Vec<u8>]) -> Vec<u8> {
+    let mut out = bytes.to_vec();
+    for l in lines {
+        let mut bounds: Vec<usize> = vec![0];
+        for (i, b) in out.iter().enumerate() { if *b == b'\n' { bounds.push(i + 1); } }
+        let pos = *rng.pick(&bounds);
+        let mut ins = l.clone();
+        ins.extend_from_slice(if rng.chance(1, 4) { b"\r\n" } else { b"\n" });
+        out.splice(pos..pos, ins);
+    }
+    out
+}
+
+/// C06 at program level (`noise_block_invisible`, `joined_noise_block_invisible`): lines that yield no row for the table
+/// they are read with (decided by `admitted`, the caller's restatement of the sentence), inserted at line boundaries of
+/// the input files / of the joined file, leave the printed lines and the status unchanged, in every output format
+pub fn noise_relation(run: &mut Run, rng: &mut Rng, n: usize, admitted: &dyn Fn(&sqlgrep::data_model::TableDefinition, &str) -> bool,
+                      main_pool: &[&str], join_pool: &[&str]) {
+    let jpath = tmp_dir().join("e2e-joined-noise.txt");
+    let jp = jpath.display().to_string();
+    for _ in 0..n {
+        let focus = *rng.pick(&["select", "group", "join", "limit", "distinct", "print"]);
+        let base = gen_schema_case(rng, focus, &jp);
+        let prepared = match prepare(&base.defs, &base.query) { Ok(p) => p, Err(_) => { run.count("e2e:noise:rejected"); continue; } };
+        let (main, jtab) = match (prepared.tables.get("t"), prepared.tables.get("u")) { (Some(a), Some(b)) => (a.clone(), b.clone()), _ => continue };
+        let pick = |rng: &mut Rng, td: &sqlgrep::data_model::TableDefinition, pool: &[&str]| -> Vec<Vec<u8>> {
+            let mut v = Vec::new();
+            for _ in 0..1 + rng.below(3) {
+                for _ in 0..8 { let c = *rng.pick(pool); if !admitted(td, c) { v.push(c.as_bytes().to_vec()); break; } }
+            }
+            v
+        };
+        let a0 = observe(run, &base, &jpath, "noise", "base");
+        // noise in the input files
+        let files: Vec<Vec<u8>> = base.files.iter().map(|f| { let ls = pick(rng, &main, main_pool); insert_at_line_boundaries(rng, f, &ls) }).collect();
+        let noisy = base.with_input(files, base.joined.clone(), "noise");
+        let a1 = observe(run, &noisy, &jpath, "noise", "main");
+        run.oracle_checks += 1;
+        if without_total(&a0) != without_total(&a1) {
+            run.fail(format!("{} ~~> files={:?}", show_case(&base), noisy.files.iter().map(|f| String::from_utf8_lossy(f).to_string()).collect::<Vec<_>>()),
+                "e2e-noise-visible:input-file", format!("program output over the input: {}; with non-admitted lines inserted: {}", a0, a1));
+        }
+        // noise in the joined file
+        if let Some((p, Some(b))) = &base.joined {
+            let ls = pick(rng, &jtab, join_pool);
+            let nb = insert_at_line_boundaries(rng, b, &ls);
+            let noisy_j = base.with_input(base.files.clone(), Some((p.clone(), Some(nb.clone()))), "noise");
+            let a2 = observe(run, &noisy_j, &jpath, "noise", "joined");
+            run.oracle_checks += 1;
+            if a0 != a2 {
+                run.fail(format!("{} ~~> joined={:?}", show_case(&base), String::from_utf8_lossy(&nb)),
+                    "e2e-noise-visible:joined-file", format!("program answer over the input: {}; with non-admitted lines inserted into the joined file: {}", a0, a2));
+            }
+        }
+    }
+    let _ = std::fs::remove_file(&jpath);
+    run.notes.push(format!("e2e noise relation: {} generated invocations (raw texts, all formats, 1-3 files, LF / CR LF, with and without final newline, joined file), each re-run with 1-3 non-admitted lines per file inserted at byte-level line boundaries, and with non-admitted lines inserted into the joined file; oracle on the implementation: same printed lines and status; every run also compared with Pipeline.runText", n));
+}
+
+/// does the content hold a line that is not valid UTF-8 (a chunk up to and including its `\n`, or the unterminated rest)?
+fn has_invalid_line(bytes: &[u8]) -> bool {
+    bytes.split_inclusive(|b| *b == b'\n').any(|chunk| std::str::from_utf8(chunk).is_err())
+}
+
+/// C12 at program level (`multi_file_eq_concat_program`, `invalid_utf8_never_ok`): the program over several
+/// newline-terminated files answers exactly as over their concatenation (any texts, any statement, any format), and a
+/// statement without LIMIT over input holding an invalid UTF-8 line never ends `ok`
+pub fn concat_relation(run: &mut Run, rng: &mut Rng, n: usize) {
+    let jpath = tmp_dir().join("e2e-joined-concat.txt");
+    let jp = jpath.display().to_string();
+    for i in 0..n {
+        let focus = *rng.pick(&["select", "group", "join", "limit", "distinct", "print"]);
+        let mut base = match i % 6 {
+            4 => gen_seam_case(rng, focus, &jp),
+            5 => match gen_def_case(rng, focus) { Some(c) => c, None => gen_schema_case(rng, focus, &jp) },
+            _ => gen_schema_case(rng, focus, &jp),
+        };
+        if base.files.is_empty() { continue; }
+        // now and then a line that is not valid UTF-8, at a line boundary of one of the files
+        if rng.chance(1, 7) {
+            let k = rng.below(base.files.len());
+            let bad: Vec<u8> = (*rng.pick(&[&b"\xff\xfe"[..], &b"a;1;\xc3"[..], &b"\xe2\x82"[..]])).to_vec();
+            base.files[k] = insert_at_line_boundaries(rng, &base.files[k], &[bad]);
+        }
+        // the hypothesis of the relation: all files but the last end with a newline (or are empty)
+        let k = base.files.len();
+        for f in base.files[..k - 1].iter_mut() { if !f.is_empty() && *f.last().unwrap() != b'\n' { f.push(b'\n'); } }
+        let a0 = observe(run, &base, &jpath, "concat", &format!("files{}", k));
+        let one = base.with_input(vec![base.files.concat()], base.joined.clone(), "concat");
+        let a1 = observe(run, &one, &jpath, "concat", "one");
+        run.oracle_checks += 1;
+        if a0 != a1 {
+            run.fail(show_case(&base), "e2e-multi-file-neq-concat", format!("program answer over the {} files: {}; over their concatenation: {}", k, a0, a1));
+        }
+        if base.files.iter().any(|f| has_invalid_line(f)) && !base.query.to_uppercase().contains("LIMIT") {
+            run.oracle_checks += 1;
+            run.count("e2e:concat:invalid-line");
+            for a in [&a0, &a1] {
+                if a.starts_with("ok ") {
+                    run.fail(show_case(&base), "e2e-invalid-line-ends-ok", format!("an input file holds a line that is not valid UTF-8, the statement has no LIMIT, yet the program reported success: {}", a));
+                }
+            }
+        }
+    }
+    let _ = std::fs::remove_file(&jpath);
+    run.notes.push(format!("e2e concat relation: {} generated invocations (schema / generated-definition / seam cases: rejected texts, undefined tables, missing joined file; all formats; 1 in 7 with an invalid UTF-8 line) over 1-4 newline-terminated files vs the one concatenated file: identical program answer incl. total_lines; no `ok` when a file holds an invalid line and the statement has no LIMIT; every run also compared with Pipeline.runText", n));
+}
+
+/// like `layout`, but the files hold EXACTLY the given lines: the final newline is left out only after a non-empty last
+/// line (an empty unterminated last line is no line at all for `BufRead::lines`)
+fn layout_exact(rng: &mut Rng, lines: &[String]) -> Vec<Vec<u8>> {
+    let k = 1 + rng.below(3);
+    let mut cuts: Vec<usize> = (0..k - 1).map(|_| rng.below(lines.len() + 1)).collect();
+    cuts.sort();
+    cuts.push(lines.len());
+    let mut files = Vec::new();
+    let mut prev = 0;
+    for cut in cuts {
+        let eol = if rng.chance(1, 4) { "\r\n" } else { "\n" };
+        let mut s = lines[prev..cut].join(eol);
+        if cut > prev && (lines[cut - 1].is_empty() || !rng.chance(1, 4)) { s.push_str(eol); }
+        files.push(s.into_bytes());
+        prev = cut;
+    }
+    files
+}
+
+/// C15 at program level (`line_order_irrelevant`): for the caller's order-insensitive aggregate statements over `defs`,
+/// permuting the input lines (and re-splitting them over files, other line ends) leaves the program's answer unchanged
+pub fn perm_relation(run: &mut Run, rng: &mut Rng, n: usize, defs: &str, query: &dyn Fn(&mut Rng) -> String, input: &dyn Fn(&mut Rng) -> Vec<String>) {
+    let jpath = tmp_dir().join("e2e-joined-perm.txt");
+    for _ in 0..n {
+        let q = query(rng);
+        let lines = input(rng);
+        let base = Case { defs: defs.to_owned(), query: q, format: gen_format(rng, "group"), single: rng.chance(1, 2), files: layout_exact(rng, &lines), joined: None, family: "perm" };
+        let a0 = observe(run, &base, &jpath, "perm", "base");
+        let mut perm = lines.clone();
+        match rng.below(3) { 0 => perm.sort(), 1 => { perm.sort(); perm.reverse(); } _ => rng.shuffle(&mut perm) }
+        let other = base.with_input(layout_exact(rng, &perm), None, "perm");
+        let a1 = observe(run, &other, &jpath, "perm", "permuted");
+        run.oracle_checks += 1;
+        if a0 != a1 {
+            run.fail(format!("{} permuted files={:?}", show_case(&base), other.files.iter().map(|f| String::from_utf8_lossy(f).to_string()).collect::<Vec<_>>()),
+                "e2e-permutation-changes-answer", format!("program answer over the input: {}; over the permuted lines: {}", a0, a1));
+        }
+    }
+    run.notes.push(format!("e2e permutation relation: {} order-insensitive aggregate statements from raw text, all formats, input lines spread over 1-3 files, vs the same lines permuted and spread anew: identical program answer; every run also compared with Pipeline.runText", n));
+}
+
 /// the stream on its own (`harness gen E2E …`, `./check E2E`): every focus in turn
 pub fn run(p: &Params) -> Run {
     let mut run = Run::new("E2E");
@@ -511,5 +696,9 @@ pub fn run(p: &Params) -> Run {
     for focus in &["select", "group", "join", "limit", "distinct", "print"] {
         stream(&mut run, &mut rng, n, focus);
     }
+    // the relations of Props/PipelineLines.lean on the implementation (also run by C06 / C12 / C15 with their own seeds)
+    noise_relation(&mut run, &mut rng, p.n(40, 800), &crate::c06::spec_admitted, crate::c06::MAIN_NOISE, crate::c06::JOIN_NOISE);
+    concat_relation(&mut run, &mut rng, p.n(60, 1200));
+    perm_relation(&mut run, &mut rng, p.n(40, 800), crate::c04::C04_DEF, &crate::c15::query, &|rng: &mut Rng| crate::c04::gen_typed_input(rng, false));
     run
 }
